@@ -1,6 +1,7 @@
 package graph
 
 import (
+	"encoding/json"
 	"strings"
 
 	"github.com/vektah/gqlparser/v2/ast"
@@ -22,7 +23,7 @@ func Harness_C04_argPanic() {
 	got := runOp(w, c04Arg, op, nil)
 	want := ref.Execute(pSchema, c04Arg, op, nil, w)
 	zzsym.Assert(got.data == want.Data, "only the field whose arguments failed is null")
-	zzsym.Assert(sameStrings(got.errs, want.Errors), "exactly one error per failure")
+	zzsym.Assert(sameErrors(got.errs, want.Errors), "exactly one error per failure")
 	zzsym.Assert(w.recovers == w.raised, "the recover hook runs exactly once per panic")
 	for _, c := range w.calls {
 		zzsym.Assert(c != "me/User.echo" || w.guards["guard3:me.b.echo.s"] == ref.KValue, "the resolver of a field whose argument failed is not called")
@@ -50,7 +51,7 @@ func Harness_C04_faults() {
 	want := ref.Execute(pSchema, doc, op, vars, w)
 	zzsym.Assert(len(got.resps) == 1, "one response")
 	zzsym.Assert(got.data == want.Data, "only the failing position (and its non-null ancestors) is null")
-	zzsym.Assert(sameStrings(got.errs, want.Errors), "exactly one error per failure, at the failing path")
+	zzsym.Assert(sameErrors(got.errs, want.Errors), "exactly one error per failure, at the failing path")
 	zzsym.Assert(w.recovers == w.raised, "the recover hook runs exactly once per panic")
 	zzsym.Event("data", got.data)
 	zzsym.Event("errors", strings.Join(got.errs, " "))
@@ -58,4 +59,57 @@ func Harness_C04_faults() {
 		zzsym.Reach("c04.panic")
 	}
 	zzsym.Reach("c04.compared")
+}
+
+func Setup_C04_deferFaults() { Setup_C13_defer() }
+
+// the @defer families without a known delivery-order finding (C13: F-10, F-15)
+var c04DeferFamilies = []int{0, 1, 3, 5}
+
+// Harness_C04_deferFaults: a single fault (error or panic; resolver or
+// directive) at any position of an operation with active @defer fragments,
+// inside a deferred group or outside: the payloads merged in arrival order
+// equal the defer-aware reference (the failing position null, propagation to
+// the nearest nullable ancestor stopping at the group's object, everything
+// else intact), one error per failure at its path, recover hook once per panic.
+func Harness_C04_deferFaults() {
+	fi := c04DeferFamilies[zzsym.Choice("family", len(c04DeferFamilies))]
+	fam := c13Families[fi]
+	vars := map[string]any{}
+	for _, v := range fam.flags {
+		vars[v] = true
+	}
+	w := newWorld(zzsym.Param("budget", 1), true)
+	doc := c13Docs[fi]
+	op := doc.Operations[0]
+	got := runOp(w, doc, op, vars)
+	want := ref.ExecuteDeferred(pSchema, doc, op, vars, w)
+	zzsym.Assert(len(got.resps) >= 1 && len(got.resps) <= 16, "the payload sequence ends")
+	var tree, wantTree any
+	zzsym.Assert(json.Unmarshal(got.resps[0].Data, &tree) == nil, "initial payload data is JSON")
+	zzsym.Assert(json.Unmarshal([]byte(want.Data), &wantTree) == nil, "reference data is JSON")
+	for _, r := range got.resps[1:] {
+		obj, ok := c13At(tree, r.Path)
+		m, isObj := obj.(map[string]any)
+		if !(ok && isObj) {
+			continue // delivery order is C13's subject
+		}
+		var data any
+		zzsym.Assert(json.Unmarshal(r.Data, &data) == nil, "incremental payload data is JSON")
+		if dm, ok := data.(map[string]any); ok {
+			for kk, vv := range dm {
+				m[kk] = vv
+			}
+		} else if data == nil {
+			// a group whose non-null field failed is null as a whole: its fields stay absent
+			zzsym.Reach("c04.defer.nullgroup")
+		}
+	}
+	zzsym.Assert(c13Canon(tree) == c13Canon(wantTree), "only the failing position (and its non-null ancestors up to the deferred group's object) is null")
+	zzsym.Assert(sameErrors(got.errs, want.Errors), "exactly one error per failure, at the failing path")
+	zzsym.Assert(w.recovers == w.raised, "the recover hook runs exactly once per panic")
+	if w.raised > 0 {
+		zzsym.Reach("c04.defer.panic")
+	}
+	zzsym.Reach("c04.defer.compared")
 }
